@@ -174,6 +174,54 @@ func decodeGo(v interface{}) interface{} {
 }
 
 // conforms is O7: does Go value v conform to type ty of schema s? It returns "" or the reason.
+// canConform reports whether the supplied value could be coerced to ty at all: like conforms,
+// but a single value is acceptable where a list is expected (it is coerced to a list of one).
+func canConform(s *ref.Schema, ty *ref.Type, v interface{}) bool {
+	rv := reflect.ValueOf(v)
+	if v == nil || ((rv.Kind() == reflect.Ptr || rv.Kind() == reflect.Interface) && rv.IsNil()) {
+		return !ty.NonNull
+	}
+	if ty.Elem != nil {
+		if rv.Kind() != reflect.Slice {
+			return canConform(s, ty.Elem, v)
+		}
+		for i := 0; i < rv.Len(); i++ {
+			if !canConform(s, ty.Elem, rv.Index(i).Interface()) {
+				return false
+			}
+		}
+		return true
+	}
+	def := s.Types[ty.Name]
+	if def != nil && def.Kind == "INPUT_OBJECT" {
+		if rv.Kind() != reflect.Map {
+			return false
+		}
+		present := map[string]bool{}
+		for _, key := range rv.MapKeys() {
+			var fd *ref.FieldDef
+			for _, f := range def.Fields {
+				if f.Name == key.String() {
+					fd = f
+				}
+			}
+			if fd == nil || !canConform(s, fd.Type, rv.MapIndex(key).Interface()) {
+				return false
+			}
+			present[key.String()] = true
+		}
+		for _, f := range def.Fields {
+			if f.Type.NonNull && f.Default == nil && !present[f.Name] {
+				return false
+			}
+		}
+		return true
+	}
+	nn := *ty
+	nn.NonNull = false
+	return conforms(s, &nn, v, "") == ""
+}
+
 func conforms(s *ref.Schema, ty *ref.Type, v interface{}, path string) string {
 	rv := reflect.ValueOf(v)
 	// a nil slice is an empty list and a nil map an empty object for every Go consumer; only nil itself is null
@@ -353,6 +401,18 @@ func c14Eval(c c14Case) (viol string, known []string, accepted bool) {
 		return "coercion returned neither values nor an error", nil, false
 	}
 	for _, d := range declsOf(c.Query) {
+		if supplied, ok := vars[d.name]; ok {
+			// a supplied value that cannot conform must be rejected, whatever defaults exist
+			if !canConform(rl.schema, d.ty, supplied) {
+				return fmt.Sprintf("the value supplied for $%s (%v) cannot conform to %s, yet coercion succeeded with %v", d.name, supplied, d.ty, out[d.name]), nil, true
+			}
+			// an explicit null is a value, not an absence: it is not replaced by the default
+			if supplied == nil {
+				if got, present := out[d.name]; !present || got != nil {
+					return fmt.Sprintf("null was supplied for $%s: %s but the result holds %v (present=%v)", d.name, d.ty, got, present), nil, true
+				}
+			}
+		}
 		val, present := out[d.name]
 		if !present {
 			_, supplied := vars[d.name]
